@@ -305,14 +305,28 @@ def check_swap(ctx, unit, classes, rule="S.swap"):
                 # exit exchanges every member; the only early exit allowed is under an identity test (&a == &b / this == &b)
                 from . import flow as _flow
 
+                stor = [x["n"] for x in rec["fields"] if "aligned_storage" in x["t"]]
+                sx = None
+                if stor:
+                    from .rules_own import StorageExchange, cls_fns
+                    sx = StorageExchange(unit, rec, f, cls_fns(unit, rec["qn"]))
+
                 def transfer(n, st):
+                    toks, vals = st
+                    if sx is not None and n.id in sx.trigger:
+                        toks = toks | frozenset(sx.trigger[n.id])
                     if n.kind == "CallExpr" and n.callee and n.callee["n"] == "swap" and len(n.args) == 2:
                         a, b = path(n.args[0]), path(n.args[1])
                         if a and b and len(a) == 2 and len(b) == 2 and a[1] == b[1] and a[0] != b[0]:
-                            return [st | {a[1]}]
-                    return [st]
+                            toks = toks | {a[1]}
+                    return [(toks, vals)]
 
                 def refine(cond, truth, st):
+                    toks, vals = st
+                    if sx is not None:
+                        vals = sx.refine(cond, truth, vals)
+                        if not vals:
+                            return []
                     c, t = cond.strip(), truth
                     while c.kind == "UnaryOperator" and c.op == "!":
                         c, t = c.children[0].strip(), not t
@@ -320,17 +334,32 @@ def check_swap(ctx, unit, classes, rule="S.swap"):
                         sides = [x.strip() for x in c.children]
                         ident = all((x.kind == "UnaryOperator" and x.op == "&") or x.kind == "CXXThisExpr" for x in sides)
                         if ident and ((c.op == "==") == t):
-                            return [st | {"<same object>"}]
-                    return [st]
-                _, ex = _flow.run(f, [frozenset()], transfer, refine)
+                            toks = toks | {"<same object>"}
+                    return [(toks, vals)]
+                _, ex = _flow.run(f, [(frozenset(), sx.initial() if sx is not None else frozenset())], transfer, refine)
                 swapped = set(fields)
-                for st in ex:
-                    if "<same object>" in st:
+                why = []
+                for toks, vals in ex:
+                    if "<same object>" in toks:
                         continue
-                    swapped &= set(st)
+                    got = {t for t in toks if isinstance(t, str)}
+                    if sx is not None:
+                        for fl in stor:
+                            if fl not in got:
+                                m = sx.missing(toks, vals)
+                                if not m:
+                                    got.add(fl)
+                                else:
+                                    why.extend(m)
+                    swapped &= got
                 if not ex:
                     swapped = set()
                 missing = fields - swapped
+                if why:
+                    ctx.inst(rule, "%s::swap" % cls, False, f.loc,
+                             "inline element storage %s is neither exchanged nor are its elements handed over on every path: %s (instantiation %s)" % (
+                                 stor, "; ".join(sorted(set(why))[:3]), rec["qn"]), f)
+                    continue
                 ctx.inst(rule, "%s::swap" % cls, not missing, f.loc,
                          "fields %s; exchanged %s; missing %s (instantiation %s)" % (
                              sorted(fields), sorted(swapped), sorted(missing), rec["qn"]), f)
